@@ -371,7 +371,7 @@ class LibMixin:
         # consequence: the first element of the result is a minimum of the original list
         path.assume(z3.ForAll([j], sv.Implies(sv.And(0 <= j, j < n), le0)))
         res.sorted_of = (base, perm, pinv)
-        self.assign(lvalue, res, path)
+        self.assign(lvalue, res, path, writeback=True)
         return sv.NONE
 
     def lib_getattr(self, base, attr, path, node):
